@@ -22,6 +22,22 @@ CLAIMS = {
          "Decides who can release a handle's waiters and in which order: completion order worker function → Finished → Close; WaitGroup/counter releases only in the Close methods; one Add(1) per single-job constructor and consistent batch sizing; every Close implementation x 5 job states follows the reference (ack → compare-and-swap to Closed → one release → response closed); Response stores before it sends. Does not decide interleavings of waiters.",
          "Trusts sync.WaitGroup; the job table is sequential per job.",
          "DESIGN.md §3 C05"),
+ "C06": ("table extraction of the wait/release predicates over the abstract state space + lockset + path rules + lifecycle table",
+         "Structural necessary conditions of exact barriers: the wait predicate equals the reference over status x pending x in-flight and is re-evaluated in a loop; the release evaluation reaches Broadcast wherever the wait predicate is false (Running/Paused); Broadcast runs under the Cond's mutex; every in-flight decrement, every drain of the queue and Purge re-evaluate the release; the in-flight counter is raised before the dequeue; Stop/PauseAndWait/WaitAndStop wait before they act. Does not decide concurrent barrier callers or the protocol's sufficiency as a whole.",
+         "Trusts sync.Cond and sequentially consistent atomics.",
+         "DESIGN.md §3 C06"),
+ "C07": ("lexical containment + path analysis + sibling agreement over the three worker-function wrappers",
+         "The user function runs only inside a literal passed to WithSafe, which recovers into its named result and calls its argument once; each wrapper counts exactly one of Failed/Successful behind the matching error test and reports failures to worker and job; fresh response per single job, results tagged with the receiver's id; id/data written only in constructors; id = generator then options, WithJobId(\"\") no-op. Does not decide 'exactly one of sendResult/sendError' (value correlation) nor payload values.",
+         "Trusts recover() semantics.",
+         "DESIGN.md §3 C07"),
+ "C08": ("atomic check-then-act analysis (interference-mode propagation on the batch counter) + job-status table + path rules",
+         "WgCounter.Done decrements by compare-and-swap, releases once per won swap and reports true exactly for 1→0 (enumerated under interference); group Close closes the shared stream only when its own Done reported true; stream capacity = counter = len(items); rejected items closed; empty batch closes its stream at construction, non-empty never. Does not decide one-result-per-item (C07).",
+         "Trusts sync/atomic CAS.",
+         "DESIGN.md §3 C08"),
+ "C09": ("path analysis with status propagation + synchronous call-graph reachability + lifecycle table",
+         "The dispatcher loop tests running; the step raises the in-flight counter, then re-tests the status, then dequeues, and with status Paused/Stopped never dequeues, gives the slot back and re-evaluates the barrier (Dekker handshake with Pause+wait); no lifecycle method synchronously reaches Dequeue/Purge/Enqueue/Unregister; submit paths ignore the worker status; Resume/Restart notify; Stop tears down after the wait. Assumes sequentially consistent atomics; does not decide restarts racing submissions.",
+         "Trusts sync/atomic sequential consistency.",
+         "DESIGN.md §3 C09"),
  "C10": ("atomic check-then-act analysis (interference-mode status propagation) + job-status table + path rules",
          "Decides the structural part of cancel/purge/close: plain status stores only where the job is exclusively owned, all other transitions compare-and-swap whose attempted transitions (every Load may return any state) go to Closed only from Created/Queued/Finished and to Processing never from Closed; Close result table over 5 states x 6 implementations; closed test precedes every mutation in both Enqueue implementations; Purge closes what it removes. One known finding (Purge = Values()+Purge(), two critical sections).",
          "Trusts sync/atomic CAS; adapters excluded.",
